@@ -59,6 +59,7 @@ type Contract struct {
 	Missing   bool
 	Split     int
 	SplitDeep bool
+	Pure      bool
 	Unfold    map[string]bool
 	CaseVar   string
 	CaseVals  []string
@@ -181,6 +182,8 @@ func parseContractFile(fset *token.FileSet, f *ast.File, pkg *packages.Package) 
 				cur.Opaque = true
 			case "inline":
 				cur.Inline = true
+			case "pure":
+				cur.Pure = true
 			case "unfold":
 				if cur.Unfold == nil {
 					cur.Unfold = map[string]bool{}
